@@ -10,7 +10,15 @@ def sh(cmd, cwd):
 import fcntl
 os.makedirs("/verif/.work", exist_ok=True)
 _repo_lock = open("/verif/.work/repo.lock", "w")
-fcntl.flock(_repo_lock, fcntl.LOCK_EX)
+_marker = "/verif/.work/repo.writer"
+open(_marker, "w").write(str(os.getpid()))
+try:
+    fcntl.flock(_repo_lock, fcntl.LOCK_EX)
+finally:
+    try:
+        os.remove(_marker)
+    except OSError:
+        pass
 os.environ["VERIF_REPO_LOCK_HELD"] = "1"
 rc, out = sh("git status --porcelain --untracked-files=no", "/repo")
 if out.strip(): print("repo not clean"); sys.exit(2)
